@@ -10,11 +10,15 @@ Section S.
   Variable inc : tree -> ctx -> option (ctx * bytes * option err).
   Notation wn := (write_node flits lookup budget inc).
 
-  Lemma unknown_node_is_error t c w : t <> 3 -> wn (NOther t) c w = Out (set_cerr None c) w (Some EUnknownCtl).
+  Lemma unknown_node_is_error t c w : wn (NOther t) c w = Out (set_cerr None c) w (Some EUnknownCtl).
+  Proof. reflexivity. Qed.
+
+  (* an if-ok block whose helper is not registered *)
+  Lemma unknown_ok_helper_is_error k ci child c w :
+    cHlp ci <> [] -> bytes_eqb (cHlp ci) n_vok = false ->
+    wn (NCondOK k ci child) c w = Out (set_cerr None c) w (Some ECondHlpNotFound).
   Proof.
-    intros H. cbn [write_node].
-    destruct t as [|p|p]; try reflexivity.
-    destruct p as [p|p|]; try reflexivity; destruct p; try reflexivity. congruence.
+    intros H1 H2. cbn [write_node]. destruct (cHlp ci) as [|b l] eqn:E; [congruence|]. rewrite H2. reflexivity.
   Qed.
 
   Lemma missing_template_is_error names c w :
